@@ -15,5 +15,5 @@ Extraction "model.ml"
   parse_ver vlt_full
   frun quiesce finit
   load_registry load_node load_child dump_registry dump_node legacy_node show_node show_nodes crash_category
-  srun readuntil st_write to_mqtt client_write mqtt_connect mqtt_disconnect mc_init life_run ml_init of_mqtt filter_matches subscriptions receive_loop
+  srun readuntil st_write trun ts_init to_mqtt client_write mqtt_connect mqtt_disconnect mc_init life_run ml_init of_mqtt filter_matches subscriptions receive_loop
   lrun linit.
